@@ -60,7 +60,7 @@ type tcase struct {
 }
 
 func check(c tcase) *mc.Failure {
-	return mc.Guard(func() *mc.Failure {
+	return mc.GuardT("operands", c, func() *mc.Failure {
 		switch c.Fn {
 		case "binary":
 			s, sm := operand(c.Ops[0])
